@@ -3,3 +3,4 @@ import TrucModel.Model.Strategy
 import TrucModel.Model.Builder
 import TrucModel.Model.Definition
 import TrucModel.Model.Replay
+import TrucModel.Model.VecConvert
